@@ -11,6 +11,7 @@ mod bind;
 mod props;
 mod refchess;
 mod report;
+mod sched;
 mod search;
 mod seeds;
 mod walk;
